@@ -55,6 +55,7 @@ var checks = map[string][]HarnessSpec{
 		{Name: "verifC11List", Pkg: ".", Labels: []string{"list"}},
 		{Name: "verifC11NewConfig", Pkg: ".", Labels: []string{"newconfig"}},
 		{Name: "verifC11ParseRaw", Pkg: ".", Labels: []string{"raw", "raw-valid"}},
+		{Name: "verifC11TLSClient", Pkg: ".", Labels: []string{"tls-client"}},
 	},
 	"C12": {
 		{Name: "verifC12Raw", Pkg: "./dns", Labels: []string{"decoded", "rejected"}, Quick: TierOpts{LoopLimit: 300}, Thorough: TierOpts{LoopLimit: 300}},
